@@ -102,6 +102,36 @@ CHECKS = {
         "All interval endpoints, points and coefficients are small dyadic rationals, so pointwise values are exact in f64. Scaling by 0 and as_integer_bound on integer-free intervals are excluded by the property.",
         "bounded exhaustive enumeration of intervals/boxes/points and of rational coefficient pairs on the real code vs exact arithmetic",
     ),
+    "C08": (
+        "fault_enumeration",
+        "Every single fault at every position of each valid base instance (4 bases covering every kind, bounds present/absent, every function variant, active+removed constraints, one-hot and SOS1 hints, dependencies, parameters, description): set id_j := id_i for every ordered pair of variables and of constraints across active+removed; replace each id occurrence of each function (objective, constraints, removed constraints, dependencies) by an undefined id; unset each oneof; unset sense / objective / each constraint function / equality / kind / removed inner constraint; each of 5 invalid bound shapes on each variable; undefined / repeated ids at every position of the hints; undefined dependency key; neutral mutations - and EVERY ORDERED PAIR of those faults. Oracle: a reference validator that re-derives the set of violated rules from the mutated message: validate() must reject exactly when ids are duplicated or used ids undefined; TryFrom<v1::Instance> must accept exactly when no rule is violated and its error (RawParseError variant + outermost context field) must name a violated rule; accepted messages are compared field by field with the typed view (hook H2: ids, kinds, bounds with unset = unbounded / [0,1], constraints, removed constraints, dependencies, hints, parameters, description). The C03 instance family is the accepting-side corpus. ParametricInstance::validate with its own single/pair fault list.",
+        "Trusted: the reference validator (props/c08.rs) as the statement of the rules; hook H2 only returns references to the private fields. Hints naming a removed constraint are outside the alphabet.",
+        "exhaustive single and pairwise fault injection on the real validators vs reference validator",
+    ),
+    "C17": (
+        "model_checking",
+        "Abstract LP/MIP models rendered by the harness's own free-format MPS writer and loaded by the real readers (load_raw_reader, load_zipped_reader, load_file): the FULL PRODUCT of 27 row specs (E/L/G x range none/+2/-2 x rhs none/4/-3) x 32 column specs (integer marker x 16 bound specs: none, UP, negative UP, LO, LO+UP in both orders, FX, MI, PL, FR, BV, LI, UI, MI+UP, LI+UI, LO 0+UP 1) for one row x one column under every layout (3/5-field lines, comment lines, blank lines, wide separators) x 5 sense forms x 4 name styles (foreign / OMMX_-style for columns and rows, three objective row names) x objective constant x sparsity patterns; the full 27^2 x 32^2 product for two rows x two columns; a fixed 5x6 model under all layouts; no-row models. The expected instance is computed from the abstract model (never by parsing) and compared by name: objective coefficients and constant (-RHS of the file's objective row), sense, one or two constraints per row by the RANGES table, effective domain per column, names / recovered ids. Fault files: undeclared row in COLUMNS / RANGES, unknown row / bound type, bad marker keyword, bad OBJSENSE word, unparsable numbers in every section, at every applicable line of a base file => Err, never a panic.",
+        "Residual un-owned nondeterminism: HashSet/HashMap order inside the parser (cannot change a correct result as compared). Outside the alphabet: UP 0 without LO, RANGES 0, second N row, RHS on an undeclared row.",
+        "bounded exhaustive enumeration of abstract models x layouts rendered by an independent writer, loaded by the real parser; fault enumeration for the error alphabet",
+    ),
+    "C18": (
+        "model_checking",
+        "Every linear instance of the product: 1..2 (quick) / 1..3 (thorough) used variables with ids {4,9,1} in rotated list order plus an unused variable with the largest id, each over 28 kind x bound specs (continuous/integer x {absent,[0,1],[-3,5],[2,inf),(-inf,4],(-inf,inf),[-5,-1],[0,0],[0,inf),[-3,0],(-inf,0],[1,1]}, binary x {absent,[0,1],[0,0],[1,1]}) x objective forms x constraint lists (0..2, = / <=, constant-only included, ids {40,3}) with function variants rotating over every message type able to hold a linear function, both senses; written with mps::write_file and read back with mps::load_file in a private scratch directory. Oracle: same sense, objective and every constraint equal as polynomials under the same variable and constraint ids with the same equality, same effective value domain (integrality + bounds, unset = unbounded, binary = integer in [0,1]) for every mathematically used variable. Nonlinear objective / constraint (4 shapes, each position) must be refused with the error variant naming the offender.",
+        "Unnormalised (repeated-id) linear terms are outside the alphabet; variables not mathematically used are not compared (the property restricts to used variables).",
+        "bounded exhaustive enumeration of linear instances through the real writer+reader round trip",
+    ),
+    "C19": (
+        "model_checking",
+        "Abstract QP models for EACH of the 120 problem-type codes (objective L/D/C/Q x variables C/B/M/I/G x constraints N/B/L/D/C/Q) x sizes up to n=5, m=4 x a deterministic sweep (210 quick / 840 thorough per code and size) that visits every value of every content dimension: Q0 diagonal / off-diagonal patterns, default b0 with non-defaults incl. an explicit zero, q0, per-constraint Qi / bi, constraint sides finite / exactly at the infinity value / beyond it / equal, variable bounds likewise, variable types, names, infinity value 1e20 or 50, sense; 4 layouts (comment lines with ! # %, blank lines, trailing text after values, lower-case keywords). Rendered by the harness's own QPLIB writer, loaded with qplib::load_file. Expected problem from the model: objective 1/2 x'Q0x + b0'x + q0 assembled from the lower triangle (diagonal entry v -> v/2 x_i^2), one <=0 constraint per finite side with the right signs, unique constraint ids, variable kinds/bounds/names. Fault files on 6 representative codes x 2 layouts: each type-code character invalid, too short, invalid sense, every count non-numeric / negative / fractional, every number and entry value / index unparsable, and truncation after EVERY line => Err whose message carries the line number of the fault.",
+        "Format assumption: the two trailing name sections are always written. Outside the alphabet: out-of-range indices, upper-triangle or repeated entries.",
+        "bounded exhaustive enumeration of type codes x content sweep rendered by an independent writer; fault enumeration incl. every truncation point",
+    ),
+    "C20": (
+        "model_checking",
+        "Explicit exploration of add-operation histories: every sequence of length 0..3 (quick) / 0..4 (thorough, 70k archives) over the 16-action alphabet (4 layer kinds x {empty message whose bytes coincide across kinds so digests collide, non-trivial message} x {no annotations, all annotations}) and longer histories (to 5 / 6) over a sub-alphabet; each history is replayed from scratch through the real Builder::new_archive_unnamed..build() into a local OCI archive in a private scratch directory, reopened with Artifact::from_oci_archive and compared with a Vec<(media type, bytes, annotations)> reference: manifest order / media types / sha256 digests (computed with sha2) / annotations; get_layer by digest; typed getter of the stored kind returns an equal message and annotations, the other three fail; unknown digest fails; per-kind descriptor sub-sequences; positional listings get_instances / get_solutions. Annotation accessors: every single field, every pair of fields and all fields at once for the four annotation types (title, 1 and 3 authors, created with sub-second precision and non-UTC offsets, licence, dataset, counts, user keys, start/end, instance and solver digests, parameters) after the archive round trip. An image with a foreign artifact type must not yield a manifest.",
+        "With equal digests a digest-only lookup cannot distinguish layers: typed getters are asserted against the first layer with that digest (see evidence assumptions); positional listings are asserted strictly. No registry access (local archives only).",
+        "explicit-state exploration of operation histories on the real builder/reader vs a Vec reference model",
+    ),
 }
 
 NOT_YET = "check not yet implemented in this revision of /verif (planned in DESIGN.md section 5)"
